@@ -59,9 +59,9 @@ SearchWhy(s, w, n, single, o) ==
     ELSE IF o.edbPost # edb THEN "Search:edb"                \* edb' = edb
     ELSE IF o.tokPost # o.tokPre THEN "Search:token"         \* token' = token
     ELSE IF o.inp # inp THEN "Search:inputs"
-    ELSE IF ~Correct(s, n, o.pos) THEN "Search:correct"
+    ELSE IF ans[w].seen /\ ans[w].pos # o.pos THEN "Search:repeat"     \* result(w) is a function of w alone
     ELSE IF o.pos # single THEN "Search:single"
-    ELSE IF ans[w].seen /\ ans[w].pos # o.pos THEN "Search:repeat"
+    ELSE IF ~Correct(s, n, o.pos) THEN "Search:correct"
     ELSE "ok"
 Search(s, w, n, single, o) ==
     /\ SearchWhy(s, w, n, single, o) = "ok"
